@@ -61,6 +61,7 @@ SETUP = """~ i8 = i8 - 1
 
 FUNCS = {"MIN", "MAX", "POW"}
 UFUNCS = {"FLOOR", "CEILING", "INT", "FLOAT", "LIST_COUNT", "LIST_VALUE", "LIST_MIN", "LIST_MAX", "LIST_ALL", "LIST_INVERT"}
+LEVEL = {"&&": 1, "||": 1, "==": 2, "!=": 2, "<": 2, ">": 2, "<=": 2, ">=": 2, "+": 4, "-": 4, "*": 6, "/": 6, "%": 6}
 KEYWORD = {"&&": "and", "||": "or", "?": "has", "!?": "hasnt", "%": "mod"}
 
 
@@ -84,6 +85,24 @@ def render(e, profile="paren", alt=False):
         return "%s(%s, %s)" % (op, a, b)
     if alt and op in KEYWORD:
         op = KEYWORD[op]
+    if profile == "bare":
+        # Parentheses only where the grouping is not the one that precedence gives - restricted to the pairs of operators
+        # on which Ink's own table (every arithmetic operator a level of its own, && and || one level) and the usual one
+        # agree: a tighter class inside a looser one (* / % inside + -, arithmetic inside comparisons, comparisons inside
+        # && ||), and the same operator again on the left.  Everything else keeps its parentheses.
+        def bare(child, left):
+            if child["k"] != "b" or child["op"] in FUNCS:
+                return True          # leaves, unary operators, function forms
+            ci, co = LEVEL.get(child["op"]), LEVEL.get(e["op"])
+            if ci is None or co is None:
+                return False
+            if ci > co:
+                return True
+            return left and child["op"] == e["op"]
+        if bare(e["a"], True) and a.startswith("(") and a.endswith(")") and e["a"]["k"] == "b":
+            a = a[1:-1]
+        if bare(e["b"], False) and b.startswith("(") and b.endswith(")") and e["b"]["k"] == "b":
+            b = b[1:-1]
     return "(%s %s %s)" % (a, op, b)
 
 
@@ -180,21 +199,21 @@ def classify(e):
 
 
 # ---------------------------------------------------------------------------------------------- stories
-def story(exprs, alt=False):
+def story(exprs, alt=False, profile="paren"):
     """one story evaluating the expressions in order: assignment then print, one line each"""
     lines = [PRELUDE]
     for k, _ in enumerate(exprs):
         lines.append("VAR r%d = 0" % k)
     lines.append("-> go\n== go ==\n" + SETUP.rstrip("\n"))
     for k, c in enumerate(exprs):
-        src = render(c["e"], alt=alt)
+        src = render(c["e"], profile, alt)
         lines.append("~ r%d = %s" % (k, src))
         lines.append("P%d [{%s}]" % (k, src))
     lines.append("-> END")
     return "\n".join(lines) + "\n"
 
 
-def run_cases(cases, wd, flavour="debug", batch=25, name="expr", alt=False):
+def run_cases(cases, wd, flavour="debug", batch=25, name="expr", alt=False, profile="paren"):
     """plays the cases; returns list of (case, outcome dict).  outcome.kind in ok | wrong_value | wrong_text |
     missing_error | unexpected_error | panic | compile_error | skipped"""
     safe = [c for c in cases if c["r"]["t"] in ("int", "bool", "float", "str", "list", "oneof")]
@@ -209,7 +228,7 @@ def run_cases(cases, wd, flavour="debug", batch=25, name="expr", alt=False):
             script = [{"op": "new"}, {"op": "turn"}]
             for k in range(len(group)):
                 script.append({"op": "get_var", "name": "r%d" % k})
-            scs.append({"case": i, "programs": [{"ink": story(group, alt)}], "seed": 1, "fuel": 50000,
+            scs.append({"case": i, "programs": [{"ink": story(group, alt, profile)}], "seed": 1, "fuel": 50000,
                         "obs": {"save": False, "vars": False, "visits": False}, "script": script})
         recs = lib.run_inkdrive(scs, wd, name="%s-%s-%d" % (name, flavour, rnd), flavour=flavour, timeout=3000)
         bc = lib.by_case(recs)
